@@ -12,8 +12,11 @@ import (
 	"strings"
 
 	"github.com/evanw/esbuild/internal/ast"
+	"github.com/evanw/esbuild/internal/config"
 	"github.com/evanw/esbuild/internal/js_ast"
 	"github.com/evanw/esbuild/internal/js_lexer"
+	"github.com/evanw/esbuild/internal/js_parser"
+	"github.com/evanw/esbuild/internal/logger"
 	"github.com/evanw/esbuild/internal/renamer"
 	. "github.com/evanw/esbuild/verifharness/hlib"
 )
@@ -471,9 +474,21 @@ func genRenamerCases(r *Rng, n int, st *Stats, cf *caseSink) {
 	if nw < 20 {
 		nw = 20
 	}
-	for i := 0; i < nw; i++ {
-		w := genWorld(r, 3)
+	// worlds taken from the REAL parser: scope trees and symbol tables that js_parser builds
+	// for generated programs (these must be well-formed in the sense of Spec.v), followed by
+	// random worlds
+	worlds := parsedWorlds(r, nw/2, st)
+	var wfItems []string
+	nparsed := len(worlds)
+	for len(worlds) < nparsed+nw {
+		worlds = append(worlds, genWorld(r, 3))
+	}
+	for i, w := range worlds {
 		symsCoq := fmt.Sprintf("w%d_syms", i)
+		if i < nparsed {
+			wfItems = append(wfItems, fmt.Sprintf("(%s,%s)", symsCoq, coqScope(w.modules[0])))
+			st.Note("parsed-forest", symsCoq+coqScope(w.modules[0]), len(w.syms) > 4)
+		}
 		fmt.Fprintf(&cf.preamble, "Definition %s : list zsym := %s.\n", symsCoq, w.coqSyms())
 
 		// (a) ComputeReservedNames
@@ -687,6 +702,7 @@ func genRenamerCases(r *Rng, n int, st *Stats, cf *caseSink) {
 			w.checkMinify(slotOf, usedTop, counted, got, reservedMap2, st)
 		}()
 	}
+	cf.add("parsedwf_cases", "list zsym * zscope", "check_parsedwf", wfItems)
 	cf.add("reserved_cases", "list zsym * list zscope * (Z * list name)", "check_reserved", resItems)
 	cf.add("number_cases", "list zsym * (Z * list name) * list Z * list zscope * list name", "check_number", numItems)
 	cf.add("slots_cases", "list zsym * zscope * list Z * list Z", "check_slots", slotItems)
@@ -840,4 +856,82 @@ func genExportCases(r *Rng, n int, st *Stats, cf *caseSink) {
 	}
 	cf.add("exportmin_cases", "list name", "check_exportmin", []string{coqNames(got)})
 	st.Note("exportmin", "130", true)
+}
+
+// ---- worlds built by the real parser
+
+func worldFromSource(src string, jsx bool) *world {
+	log := logger.NewDeferLog(logger.DeferLogNoVerboseOrDebug, nil)
+	opts := js_parser.OptionsFromConfig(&config.Options{})
+	tree, ok := js_parser.Parse(log, logger.Source{Index: 0, KeyPath: logger.Path{Text: "a.js"}, PrettyPaths: logger.PrettyPaths{Rel: "a.js"}, Contents: src}, opts)
+	if !ok || log.HasErrors() || tree.ModuleScope == nil {
+		return nil
+	}
+	w := &world{base: []int{0}}
+	for i, s := range tree.Symbols {
+		link := -1
+		if s.Link != ast.InvalidRef {
+			link = int(s.Link.InnerIndex)
+		}
+		for _, c := range []byte(s.OriginalName) {
+			if c >= 0x80 {
+				return nil
+			}
+		}
+		if s.OriginalName == "" {
+			return nil
+		}
+		w.syms = append(w.syms, gsym{name: s.OriginalName, kind: s.Kind, flags: s.Flags, link: link, src: 0, inner: i})
+	}
+	var conv func(sc *js_ast.Scope, parent *gscope) *gscope
+	conv = func(sc *js_ast.Scope, parent *gscope) *gscope {
+		g := &gscope{label: -1, parent: parent, directEval: sc.ContainsDirectEval}
+		for _, m := range sc.Members {
+			g.members = append(g.members, int(m.Ref.InnerIndex))
+		}
+		sort.Ints(g.members)
+		for _, ref := range sc.Generated {
+			g.generated = append(g.generated, int(ref.InnerIndex))
+		}
+		if sc.Label.Ref != ast.InvalidRef && sc.Kind == js_ast.ScopeLabel {
+			g.label = int(sc.Label.Ref.InnerIndex)
+		}
+		for _, c := range sc.Children {
+			g.children = append(g.children, conv(c, g))
+		}
+		return g
+	}
+	w.modules = []*gscope{conv(tree.ModuleScope, nil)}
+	return w
+}
+
+func parsedWorlds(r *Rng, n int, st *Stats) []*world {
+	var out []*world
+	feat := map[string]int{}
+	for tries := 0; len(out) < n && tries < 4*n; tries++ {
+		g := &jsgen{r: r, features: feat}
+		g.noEval = r.Chance(50)
+		g.noWith = r.Bool()
+		g.noFnInBlock = !g.noWith
+		g.evalSibs = r.Chance(25)
+		var src string
+		if r.Chance(35) {
+			g.module = true
+			g.noEval = true
+			files := g.moduleFiles(1)
+			src = files[0].src
+		} else {
+			src, _ = g.script(r.Range(2, 4))
+			if k := strings.Index(src, "$p(\"globals\""); k >= 0 {
+				src = src[k:] // the prelude adds nothing of interest to the scope tree
+			}
+		}
+		w := worldFromSource(src, false)
+		if w == nil || len(w.syms) > 90 {
+			st.Histogram["parsed-forest-skipped"]++
+			continue
+		}
+		out = append(out, w)
+	}
+	return out
 }
